@@ -354,6 +354,14 @@ func dectotMsgFields(md protoreflect.MessageDescriptor) []protoreflect.FieldDesc
 // message-typed fields (sub-messages, groups, lists, map values); returns the bytes and whether
 // a message-typed extension or a map was used on the way.
 func dectotNest(c *Ctx, md protoreflect.MessageDescriptor, levels int, leaf []byte) (b []byte, viaExt bool, cost int) {
+	return dectotNestFn(c, md, levels, func(protoreflect.MessageDescriptor) ([]byte, int) { return leaf, 0 }, nil, false)
+}
+
+// dectotNestFn: the innermost content is built by leafFn from the innermost message type (it
+// returns the bytes and the levels they need below that message); entryExtra is added to every
+// map entry on the way (next to key and value); preferMap steers the path through map fields.
+func dectotNestFn(c *Ctx, md protoreflect.MessageDescriptor, levels int,
+	leafFn func(protoreflect.MessageDescriptor) ([]byte, int), entryExtra []byte, preferMap bool) (b []byte, viaExt bool, cost int) {
 	var path []protoreflect.FieldDescriptor
 	cur := md
 	for i := 0; i < levels; i++ {
@@ -365,6 +373,9 @@ func dectotNest(c *Ctx, md protoreflect.MessageDescriptor, levels int, leaf []by
 		var fd protoreflect.FieldDescriptor
 		for try := 0; try < 4; try++ {
 			fd = cands[c.Intn(len(cands))]
+			if preferMap && !fd.IsMap() && try < 3 {
+				continue
+			}
 			next := fd.Message()
 			if fd.IsMap() {
 				next = fd.MapValue().Message()
@@ -380,8 +391,8 @@ func dectotNest(c *Ctx, md protoreflect.MessageDescriptor, levels int, leaf []by
 			cur = fd.Message()
 		}
 	}
-	inner := leaf
-	cost = 1
+	inner, leafCost := leafFn(cur)
+	cost = 1 + leafCost
 	for i := len(path) - 1; i >= 0; i-- {
 		fd := path[i]
 		var out []byte
@@ -391,8 +402,14 @@ func dectotNest(c *Ctx, md protoreflect.MessageDescriptor, levels int, leaf []by
 			if c.Bool() {
 				entry = msgAppendScalarField(entry, 1, fd.MapKey(), msgScalar(c, fd.MapKey(), false))
 			}
+			if entryExtra != nil && c.Bool() {
+				entry = append(entry, entryExtra...)
+			}
 			entry = protowire.AppendTag(entry, 2, protowire.BytesType)
 			entry = protowire.AppendBytes(entry, inner)
+			if entryExtra != nil && c.Bool() {
+				entry = append(entry, entryExtra...)
+			}
 			out = protowire.AppendTag(out, fd.Number(), protowire.BytesType)
 			out = protowire.AppendBytes(out, entry)
 			cost += 2
@@ -1028,6 +1045,146 @@ func dectotGroupAimed(c *Ctx, t *dectotTarget) bool {
 	return true
 }
 
+// dectotBoundaryField returns one field whose number sits at a boundary the decoders check
+// (2^29-1 is the largest valid number; tags up to 2^31-1 still fit protowire.ConsumeTag), with a
+// minimal or padded tag, and a value of a random wire type.
+func dectotBoundaryField(c *Ctx) []byte {
+	nums := []uint64{1<<29 - 1, 1 << 29, 1<<29 + 1, 1<<31 - 1, 1 << 31, 1<<32 - 1, 1 << 29, 1 << 29, 1<<29 - 2, 0}
+	num := nums[c.Intn(len(nums))]
+	typ := []uint64{0, 2, 5, 1, 0}[c.Intn(5)]
+	tag := num<<3 | typ
+	pad := 0
+	if c.Intn(3) == 0 {
+		pad = protowire.SizeVarint(tag) + 1 + c.Intn(3)
+		if pad > 10 {
+			pad = 10
+		}
+	}
+	b := dectotVarintN(nil, tag, pad)
+	switch typ {
+	case 0:
+		b = append(b, byte(c.Intn(2)))
+	case 2:
+		b = append(b, 0)
+	case 5:
+		b = append(b, 0, 0, 0, 0)
+	case 1:
+		b = append(b, 0, 0, 0, 0, 0, 0, 0, 0)
+	}
+	return b
+}
+
+// dectotBoundary: a boundary-numbered field in every nesting context -- top level, sub-messages,
+// groups, extension values, oneof members, and map entries (before / after key and value, and
+// inside message values).
+func dectotBoundary(c *Ctx, t *dectotTarget) {
+	extra := dectotBoundaryField(c)
+	// directly: an entry of each kind of map (scalar / message value) with the extra field
+	var maps []protoreflect.FieldDescriptor
+	for i, fds := 0, t.md.Fields(); i < fds.Len(); i++ {
+		if fds.Get(i).IsMap() {
+			maps = append(maps, fds.Get(i))
+		}
+	}
+	if len(maps) > 0 && c.Bool() {
+		fd := maps[c.Intn(len(maps))]
+		for try := 0; try < 3 && fd.MapValue().Message() == nil; try++ {
+			fd = maps[c.Intn(len(maps))]
+		}
+		var entry []byte
+		pos := c.Intn(3)
+		if pos == 0 {
+			entry = append(entry, extra...)
+		}
+		entry = msgAppendScalarField(entry, 1, fd.MapKey(), msgScalar(c, fd.MapKey(), false))
+		if pos == 1 {
+			entry = append(entry, extra...)
+		}
+		if fd.MapValue().Message() != nil {
+			entry = append(protowire.AppendTag(entry, 2, protowire.BytesType), 0)
+		} else {
+			entry = msgAppendScalarField(entry, 2, fd.MapValue(), msgScalar(c, fd.MapValue(), false))
+		}
+		if pos == 2 {
+			entry = append(entry, extra...)
+		}
+		dectotOne(c, t, protowire.AppendBytes(protowire.AppendTag(nil, fd.Number(), protowire.BytesType), entry), 0, "boundary_tag_entry")
+		return
+	}
+	levels := c.Intn(4)
+	inLeaf := c.Intn(3) != 0
+	b, _, _ := dectotNestFn(c, t.md, levels, func(protoreflect.MessageDescriptor) ([]byte, int) {
+		if inLeaf {
+			return extra, 0
+		}
+		return nil, 0
+	}, extra, c.Bool())
+	dectotOne(c, t, b, 0, "boundary_tag")
+}
+
+// dectotSiblings: breadth instead of depth -- N sequential occurrences (N well above the
+// recursion limit) of one depth-consuming construct (group, sub-message, map entry with or
+// without a message value, packed list) at a shallow real depth, with a small custom limit that
+// the real nesting fits: the verdict must not depend on the number of siblings.
+func dectotSiblingBytes(c *Ctx, md protoreflect.MessageDescriptor, n int) ([]byte, int) {
+	cands := dectotMsgFields(md)
+	var groups []protoreflect.FieldDescriptor
+	for _, fd := range cands {
+		if fd.Kind() == protoreflect.GroupKind {
+			groups = append(groups, fd)
+		}
+	}
+	fds := md.Fields()
+	for i := 0; i < fds.Len(); i++ {
+		if fd := fds.Get(i); fd.IsMap() && fd.MapValue().Message() == nil {
+			cands = append(cands, fd) // scalar-valued maps consume a level too
+		}
+	}
+	if len(cands) == 0 {
+		return nil, 0
+	}
+	fd := cands[c.Intn(len(cands))]
+	if len(groups) > 0 && c.Bool() {
+		fd = groups[c.Intn(len(groups))]
+	}
+	var one []byte
+	cost := 1
+	switch {
+	case fd.IsMap():
+		var entry []byte
+		if c.Bool() {
+			entry = msgAppendScalarField(entry, 1, fd.MapKey(), msgScalar(c, fd.MapKey(), false))
+		}
+		if fd.MapValue().Message() != nil && c.Bool() {
+			entry = append(protowire.AppendTag(entry, 2, protowire.BytesType), 0)
+			cost = 2
+		}
+		one = protowire.AppendBytes(protowire.AppendTag(nil, fd.Number(), protowire.BytesType), entry)
+	case fd.Kind() == protoreflect.GroupKind:
+		one = protowire.AppendTag(protowire.AppendTag(nil, fd.Number(), protowire.StartGroupType), fd.Number(), protowire.EndGroupType)
+	default:
+		one = append(protowire.AppendTag(nil, fd.Number(), protowire.BytesType), 0)
+	}
+	return bytes.Repeat(one, n), cost
+}
+
+func dectotSiblings(c *Ctx, t *dectotTarget) {
+	slack := c.Intn(3)
+	n := 0
+	b, _, cost := dectotNestFn(c, t.md, c.Intn(3), func(md protoreflect.MessageDescriptor) ([]byte, int) {
+		n = 8 + c.Intn(8)
+		return dectotSiblingBytes(c, md, n+14)
+	}, nil, false)
+	limit := cost + slack // the real nesting fits; there are more siblings than levels
+	if limit < 1 || limit > 20 {
+		return
+	}
+	dectotOne(c, t, b, limit, "siblings")
+	if slack == 0 && limit > 1 {
+		dectotOne(c, t, b, limit-1, "siblings")
+	}
+}
+
 func dectotRandom(c *Ctx, t *dectotTarget) {
 	if c.Intn(3) == 0 && dectotGroupAimed(c, t) {
 		return
@@ -1241,7 +1398,15 @@ func famDectot(c *Ctx) {
 				c.PropFail("C06", fmt.Sprintf("panic in the harness or the implementation (%s): %v", t.md.FullName(), r))
 			}
 		}()
-		switch c.Intn(6) {
+		switch c.Intn(8) {
+		case 6:
+			dectotBoundary(c, t)
+			dectotBoundary(c, t)
+			dectotSiblings(c, t)
+		case 7:
+			dectotSiblings(c, t)
+			dectotSiblings(c, t)
+			dectotBoundary(c, t)
 		case 0:
 			dectotDeep(c, t)
 		case 1:
